@@ -161,9 +161,19 @@ def gen_ip(rng, want=None):
             # while the buffer goes on
             plen = rng.below(xlen + 3)
         ver = 6 if rng.chance(19, 20) else rng.below(16)
+        rest = chain + (rng.bytes(rng.below(6)) if rng.chance(1, 4) else b"")
+        if first == 0 and len(rest) >= 8 and rng.chance(1, 3):
+            # RFC 2675 jumbogram: payload_length 0 and a jumbo payload option (C2 04 <u32>) as first
+            # hop-by-hop option, announcing a length around the bytes that really follow the IPv6 header
+            d = rng.choice([0, 0, 1, -1, rng.range(2, 40), -rng.range(2, 40), 40, 41, 39, 48, rng.below(1 << 16)])
+            j = max(0, len(rest) + d) if rng.chance(9, 10) else rng.choice([0xFFFFFFFF, 0x10000, rng.below(1 << 32)])
+            rest = rest[:2] + b"\xc2\x04" + be32(j & 0xFFFFFFFF) + rest[8:]
+            if rng.chance(5, 6):
+                plen = 0
+            xtag += "j"
         hdr = bytes([(ver << 4) | rng.below(16)]) + rng.bytes(3) + be16(plen) + bytes([first, rng.below(256)]) + rng.bytes(32)
         et = ET_IPV6 if rng.chance(19, 20) else ET_IPV4
-        return et, hdr + chain + (rng.bytes(rng.below(6)) if rng.chance(1, 4) else b""), "v6" + xtag + "/" + ttag
+        return et, hdr + rest, "v6" + xtag + "/" + ttag
     if k == 8:   # ARP
         hs = rng.choice([6, 6, 6, 0, 1, 255, rng.below(256)])
         ps = rng.choice([4, 4, 4, 0, 16, 255, rng.below(256)])
